@@ -2,9 +2,12 @@ import PdeVerif.Props.C19
 /-
 C19, theorem gaps closed after the second review (gap round):
 
-* `operators_use_component_order_polar`, `operators_use_component_order_spherical` - "the component order is the
-  order of the differential operators" for polar and spherical grids, relative to C01's model of the operator
-  kernels (`Model/Stencil.lean`); was proved for cylindrical grids only.
+* `operators_use_component_order_polar`, `operators_use_component_order_spherical`,
+  `operators_use_component_order_spherical_tensor` - "the component order is the order of the differential
+  operators" for polar and spherical grids, relative to C01's model of the operator kernels (`Model/Stencil.lean`):
+  every kernel (divergence in both forms, gradient, vector gradient, tensor divergence, double divergence) reads /
+  writes the components by the indices `get_axis_index` returns for the axis names; was proved for cylindrical
+  grids only.  (Statements by the sub-round `gap-c16c19-c19-item1`.)
 * `polar_conversion_commutes_with_vector_gradient_real` - converting a vector field to the Cartesian basis
   commutes with the gradient of a VECTOR field (polar grids, any differentiable radial profiles): the four
   partial derivatives `∂_j v_i` of the converted field are the entries of `Bᵀ T B` (`tensorToCartesian`), `T`
@@ -14,26 +17,36 @@ C19, theorem gaps closed after the second review (gap round):
 namespace PdeVerif.Coords
 open PdeVerif PdeVerif.Grids
 
-section
-variable {K : Type} [Field K]
-open PdeVerif.Stencil
+/-! ### the component order is the order of the differential operators: polar and spherical grids
 
-/-- **the component order is the order of the differential operators, polar grids** (relative to C01's model of
-`pde/backends/numba/operators/polar_sym.py`): with the indices `ir`, `iφ` that `get_axis_index` returns for the
-names `r`, `φ`
-* the divergence takes `∂_r + 1/r` of component `ir` and ignores `iφ`,
-* the gradient of a scalar stores `∂_r` as component `ir` and `0` as component `iφ`,
-* the vector gradient stores `∂_r` of component `c` at `[c, ir]`, `-f_φ/r` at `[ir, iφ]` and `f_r/r` at `[iφ, iφ]`,
-* the tensor divergence reads the components by these indices. -/
-theorem operators_use_component_order_polar (m : Method) (r : Int → K) (dr : K) (a : Arr K) (i : Int) :
-    ∃ ir iφ : ℕ, getAxisIndex .polar 1 .r = some ir ∧ getAxisIndex .polar 1 .φ = some iφ ∧
+The analogue of `operators_use_component_order_cyl` (Props/C19.lean) for the other two curvilinear grid classes,
+relative to C01's model of the operator kernels (`Model/Stencil.lean`, tied to
+`pde/backends/numba/operators/{polar_sym,spherical_sym}.py` by the check of C01): with `ir, iθ, iφ` the indices
+`get_axis_index` returns for the NAMES `r, θ, φ`,
+* the divergence differentiates component `ir` (adds `a_r / r` resp. `2 a_r / r`) and reads no other component
+  (all branches: conservative or not, every finite-difference method),
+* the gradient of a scalar stores `∂_r` as component `ir` and `0` as the other components,
+* the vector gradient and the tensor divergence pair the curvature terms with the components named `r`, `θ`, `φ`
+  as the continuum formulas do (`(∇v)_φφ = v_r / r`, `(∇·T)_r = ∂_r T_rr + (T_rr - T_φφ)/r`, ...).
+On these two classes `axes ++ axes_symmetric = c.axes`, so this is also the order of `_vector_to_cartesian`
+(`order_consistent`). -/
+
+section
+open PdeVerif.Stencil
+variable {K : Type} [Field K]
+
+/-- **C19** polar grids: the operators act on the components in the order `get_axis_index` reports -/
+theorem operators_use_component_order_polar (n : ℕ) (r : Int → K) (dr : K) (a : Arr K) (m : Method) (i : Int) :
+    ∃ ir iφ : ℕ, getAxisIndex .polar n .r = some ir ∧ getAxisIndex .polar n .φ = some iφ ∧
       polarDivergence r dr a i =
         (a [(ir : Int), i+1] - a [(ir : Int), i-1]) / (((2:Nat):K) * dr) + a [(ir : Int), i] / r i ∧
+      (∀ b : Arr K, (∀ k, b [(ir : Int), k] = a [(ir : Int), k]) →
+        polarDivergence r dr b i = polarDivergence r dr a i) ∧
       polarGradient m dr a ir i = d1 m dr a [i] 0 ∧
       polarGradient m dr a iφ i = ((0:Nat):K) ∧
-      (∀ c : ℕ, c = ir ∨ c = iφ → polarVectorGradient r dr a c ir i =
-        (a [(c : Int), i+1] - a [(c : Int), i-1]) / (((2:Nat):K) * dr)) ∧
+      polarVectorGradient r dr a ir ir i = (a [(ir : Int), i+1] - a [(ir : Int), i-1]) / (((2:Nat):K) * dr) ∧
       polarVectorGradient r dr a ir iφ i = -(a [(iφ : Int), i]) / r i ∧
+      polarVectorGradient r dr a iφ ir i = (a [(iφ : Int), i+1] - a [(iφ : Int), i-1]) / (((2:Nat):K) * dr) ∧
       polarVectorGradient r dr a iφ iφ i = a [(ir : Int), i] / r i ∧
       polarTensorDivergence r dr a ir i =
         (a [(ir : Int), (ir : Int), i+1] - a [(ir : Int), (ir : Int), i-1]) / (((2:Nat):K) * dr)
@@ -41,34 +54,61 @@ theorem operators_use_component_order_polar (m : Method) (r : Int → K) (dr : K
       polarTensorDivergence r dr a iφ i =
         (a [(iφ : Int), (ir : Int), i+1] - a [(iφ : Int), (ir : Int), i-1]) / (((2:Nat):K) * dr)
           + (a [(ir : Int), (iφ : Int), i] + a [(iφ : Int), (ir : Int), i]) / r i := by
-  refine ⟨0, 1, by decide, by decide, ?_, rfl, rfl, ?_, ?_, ?_, ?_, ?_⟩
-  · simp [polarDivergence]
-  · rintro c (rfl | rfl) <;> simp [polarVectorGradient]
-  · simp [polarVectorGradient]
-  · simp [polarVectorGradient]
-  · simp [polarTensorDivergence]
-  · simp [polarTensorDivergence]
+  refine ⟨0, 1, rfl, rfl, rfl, ?_, rfl, rfl, rfl, rfl, rfl, rfl, rfl, rfl⟩
+  intro b hb
+  simp only [polarDivergence]
+  have := hb (i+1); have := hb (i-1); have := hb i
+  simp_all
 
-/-- **spherical grids**: with the indices `ir`, `iθ`, `iφ` that `get_axis_index` returns for `r`, `θ`, `φ`
-* the (non-conservative) divergence takes `∂_r + 2/r` of component `ir` only,
-* the gradient of a scalar stores `∂_r` as component `ir` and `0` at `iθ`, `iφ`,
-* the vector gradient stores `∂_r f_r` at `[ir, ir]` and `f_r / r` at `[iθ, iθ]` and `[iφ, iφ]`. -/
-theorem operators_use_component_order_spherical (m : Method) (r : Int → K) (dr : K) (a : Arr K)
-    (i : Int) :
-    ∃ ir iθ iφ : ℕ, getAxisIndex .spherical 1 .r = some ir ∧ getAxisIndex .spherical 1 .θ = some iθ ∧
-      getAxisIndex .spherical 1 .φ = some iφ ∧
-      sphDivergence false m r dr a i
-        = d1 m dr a [(ir : Int), i] 1 + ((2:Nat):K) / r i * a [(ir : Int), i] ∧
+/-- **C19** spherical grids: the same -/
+theorem operators_use_component_order_spherical (n : ℕ) (r : Int → K) (dr : K) (a : Arr K) (m : Method)
+    (cons : Bool) (i : Int) :
+    ∃ ir iθ iφ : ℕ, getAxisIndex .spherical n .r = some ir ∧ getAxisIndex .spherical n .θ = some iθ ∧
+      getAxisIndex .spherical n .φ = some iφ ∧
+      sphDivergence false m r dr a i = d1 m dr a [(ir : Int), i] 1 + ((2:Nat):K) / r i * a [(ir : Int), i] ∧
+      (∀ b : Arr K, (∀ k, b [(ir : Int), k] = a [(ir : Int), k]) →
+        sphDivergence cons m r dr b i = sphDivergence cons m r dr a i) ∧
       sphGradient m dr a ir i = d1 m dr a [i] 0 ∧
-      sphGradient m dr a iθ i = ((0:Nat):K) ∧ sphGradient m dr a iφ i = ((0:Nat):K) ∧
+      sphGradient m dr a iθ i = ((0:Nat):K) ∧
+      sphGradient m dr a iφ i = ((0:Nat):K) ∧
       sphVectorGradient m r dr a ir ir i = d1 m dr a [(ir : Int), i] 1 ∧
       sphVectorGradient m r dr a iθ iθ i = a [(ir : Int), i] / r i ∧
-      sphVectorGradient m r dr a iφ iφ i = a [(ir : Int), i] / r i := by
-  refine ⟨0, 1, 2, by decide, by decide, by decide, ?_, rfl, rfl, rfl, ?_, ?_, ?_⟩
-  · simp [sphDivergence]
-  · simp [sphVectorGradient]
-  · simp [sphVectorGradient]
-  · simp [sphVectorGradient]
+      sphVectorGradient m r dr a iφ iφ i = a [(ir : Int), i] / r i ∧
+      sphTensorDivergence false r dr a ir i =
+        (a [(ir : Int), (ir : Int), i+1] - a [(ir : Int), (ir : Int), i-1]) / (((2:Nat):K) * dr)
+          + ((2:Nat):K) * (a [(ir : Int), (ir : Int), i] - a [(iφ : Int), (iφ : Int), i]) / r i ∧
+      sphTensorDivergence false r dr a iθ i =
+        (a [(iθ : Int), (ir : Int), i+1] - a [(iθ : Int), (ir : Int), i-1]) / (((2:Nat):K) * dr)
+          + ((2:Nat):K) * a [(iθ : Int), (ir : Int), i] / r i ∧
+      sphTensorDivergence false r dr a iφ i =
+        (a [(iφ : Int), (ir : Int), i+1] - a [(iφ : Int), (ir : Int), i-1]) / (((2:Nat):K) * dr)
+          + (((2:Nat):K) * a [(iφ : Int), (ir : Int), i] + a [(ir : Int), (iφ : Int), i]) / r i := by
+  refine ⟨0, 1, 2, rfl, rfl, rfl, rfl, ?_, rfl, rfl, rfl, rfl, rfl, rfl, rfl, rfl, rfl⟩
+  intro b hb
+  have h1 := hb (i+1); have h2 := hb (i-1); have h3 := hb i
+  cases cons <;> cases m <;> simp_all [sphDivergence, d1, shift]
+
+/-- **C19** spherical grids, the remaining tensor kernels (conservative tensor divergence, double divergence in
+both forms): they read exactly the components named `(r, r)` and `(φ, φ)` - with `ir, iφ` the indices
+`get_axis_index` returns for the names - and the conservative tensor divergence stores its result as component
+`ir` (`0` as the components `iθ`, `iφ`) -/
+theorem operators_use_component_order_spherical_tensor (n : ℕ) (r : Int → K) (dr : K) (a : Arr K) (cons : Bool)
+    (i : Int) :
+    ∃ ir iθ iφ : ℕ, getAxisIndex .spherical n .r = some ir ∧ getAxisIndex .spherical n .θ = some iθ ∧
+      getAxisIndex .spherical n .φ = some iφ ∧
+      (∀ b : Arr K, (∀ k, b [(ir : Int), (ir : Int), k] = a [(ir : Int), (ir : Int), k]) →
+        (∀ k, b [(iφ : Int), (iφ : Int), k] = a [(iφ : Int), (iφ : Int), k]) →
+        sphTensorDivergence true r dr b ir i = sphTensorDivergence true r dr a ir i ∧
+        sphTensorDoubleDivergence cons r dr b i = sphTensorDoubleDivergence cons r dr a i) ∧
+      sphTensorDivergence true r dr a iθ i = ((0:Nat):K) ∧
+      sphTensorDivergence true r dr a iφ i = ((0:Nat):K) := by
+  refine ⟨0, 1, 2, rfl, rfl, rfl, ?_, rfl, rfl⟩
+  intro b hb hp
+  have h1 := hb (i+1); have h2 := hb (i-1); have h3 := hb i
+  have p1 := hp (i+1); have p2 := hp (i-1); have p3 := hp i
+  constructor
+  · simp_all [sphTensorDivergence]
+  · cases cons <;> simp_all [sphTensorDoubleDivergence]
 
 end
 
